@@ -295,6 +295,10 @@ pub enum ShardMode {
     /// ScyllaDB's shard-aware port behaviour on the mock's only port: the connection's shard is
     /// `source_port % nr_shards`; SUPPORTED advertises the mock's own port as SCYLLA_SHARD_AWARE_PORT.
     ByPort(u16, u8),
+    /// A NAT between driver and node: the node sees another source port than the driver chose, so the
+    /// connection lands on shard `(source_port + 1) % nr_shards` - NOT the shard the driver aimed at.
+    /// The driver must file the connection under the shard the server REPORTS.
+    ByPortShifted(u16, u8),
 }
 
 pub fn body_supported(metadata_id_ext: bool, shard: Option<(u16, u16, u8)>) -> Vec<u8> {
@@ -507,6 +511,7 @@ impl MockNode {
                     ShardMode::None => (None, None),
                     ShardMode::Fixed(s, n, m) => (Some((s, n, m)), None),
                     ShardMode::ByPort(n, m) => (Some((peer.port() % n, n, m)), Some(addr.port())),
+                    ShardMode::ByPortShifted(n, m) => (Some(((peer.port() as u32 + 1) as u16 % n, n, m)), Some(addr.port())),
                 };
                 shards2.lock().unwrap().push(shard.map(|s| s.0));
                 let handler = Arc::clone(&handler);
